@@ -32,7 +32,9 @@ var configs = []string{
 }
 
 // fixture: U (underlying root) holds
-//   secret (file OUT-secret)  x/ (DIRECTORY, outside!)  x/leak (file)  sib/sfile  jail/…
+//
+//	secret (file OUT-secret)  x/ (DIRECTORY, outside!)  x/leak (file)  sib/sfile  jail/…
+//
 // the jail view's root is U/<jailPath>; inside it:  x (FILE IN-x)  jail/ (dir)  jail/x (file)  d/ (dir)
 type fixture struct {
 	kind     string
@@ -288,9 +290,9 @@ func clamp(p string) string {
 
 type call struct {
 	selfCopy bool
-	name string
-	run  func(j filesystem.Filespace) (data []byte, names []string, positive bool, kindDir, kindFile bool, err error)
-	args string
+	name     string
+	run      func(j filesystem.Filespace) (data []byte, names []string, positive bool, kindDir, kindFile bool, err error)
+	args     string
 }
 
 func names(infos []os.FileInfo) []string {
@@ -613,7 +615,7 @@ func main() {
 	sup.Main(sup.Prop{
 		ID:    "C03",
 		Level: "exploration",
-		Rule: "for each of 15 view configurations (memory/disk root and child, depth-3 views, encrypted, read-only, sub-path, cache child/root/depth-3) every path of ≤ N segments over {x, jail, ., .., \"\"} with and without leading '/' (N=3 quick, 5 thorough; random longer ones beyond) is given to all 16 operations (copy operations: hostile source, hostile destination, both); after every call the tree outside the view root (walked through the underlying root, host directory for disk, after Commit for caches) must be byte-identical, no outside token may be returned, no outside-only name listed, no positive answer for an escaping path unless the clamped path explains it, no panic. distinct = (configuration, path block); non-trivial = block contains escaping paths",
+		Rule:  "for each of 15 view configurations (memory/disk root and child, depth-3 views, encrypted, read-only, sub-path, cache child/root/depth-3) every path of ≤ N segments over {x, jail, ., .., \"\"} with and without leading '/' (N=3 quick, 5 thorough; random longer ones beyond) is given to all 16 operations (copy operations: hostile source, hostile destination, both); after every call the tree outside the view root (walked through the underlying root, host directory for disk, after Commit for caches) must be byte-identical, no outside token may be returned, no outside-only name listed, no positive answer for an escaping path unless the clamped path explains it, no panic. distinct = (configuration, path block); non-trivial = block contains escaping paths",
 		Assumptions: []string{
 			"a path that would climb above the root may be rejected or resolved inside the root (clamped); both are accepted",
 			"removing or replacing the view's own root directory through the view is not counted as reaching outside (the statement speaks of what is not under the root)",
